@@ -7,6 +7,12 @@ TECH = 'bounded symbolic execution of the real go/ssa (and clang LLVM-IR) of /re
 CHECKS = {
  'C01': dict(design='6.1', text='Bounded symbolic model checking of Sign/Verify through cgo into the LLVM IR of bls_core.c / bls12381_utils.c with an algebraic group model at the BLST boundary: for a symbolic key, symbolic messages and every candidate a*H(m)+b*g1 (+cofactor torsion), raw strings and other lengths, z3 decides that Verify accepts exactly the group element sk*H(m) in G1, that Sign output verifies, and that other messages, keys, tags, the identity signature/key and bad hashers give the documented results.',
              note=ALG_NOTE),
+ 'C02': dict(design='6.2', text='Bounded symbolic model checking of VerifyBLSSignatureManyMessages / OneMessage: the Go grouping code (two maps, flattening with per-group counts, every map iteration order) and both C verification paths with their offset bookkeeping are executed for every assignment pattern of keys and messages to n <= 3 positions (4 in the thorough tier); for the candidate aggregate + delta*g1 z3 decides that the verdict is true exactly when delta = 0; cancelling keys, identity keys and the typed errors are covered.',
+             note=ALG_NOTE + ' n is bounded; C memory accesses are bounds-checked on every path.'),
+ 'C03': dict(design='6.3', text='Bounded symbolic model checking of BatchVerifyBLSSignaturesOneMessage and the C aggregation tree (build, top-down isolation, free) for n <= 4 (5 thorough): every subset of invalid positions, every invalidity kind per position, cancelling pairs of errors; the returned booleans equal the individual Verify verdicts for every value of the random coefficients outside the exceptional set, which is encoded by treating the coefficients as formal indeterminates.',
+             note=ALG_NOTE + ' The probability of the exceptional set (about 2^-128 per tree node) is arithmetic outside the solver; weak randomness (fewer seed bytes) is not detected, a shared or one-sided coefficient is.'),
+ 'C06': dict(design='6.6', text='Bounded symbolic model checking of BLSThresholdKeyGen, share signing, stateless and stateful reconstruction: polynomial evaluation (Horner, from LLVM IR), the limb-batched Lagrange coefficient code on concrete signer indices (up to 9 signers quick / 17 thorough, crossing the 8-index limb boundary) and the multi-scalar contract are executed with exact polynomials; the reconstructed discrete log normalises to a_0*h for every signer set of the bound, byte-equal across sets and orders; the stateful object never returns an unverified signature; documented errors.',
+             note=ALG_NOTE + ' (n, t) up to (4,2) quick / (6,3) thorough plus the large signer sets; derivation of the polynomial from the seed is outside; zero key shares (1/r) excluded.'),
  'C04': dict(design='6.4', text='Bounded symbolic model checking of the aggregation functions (Go + C sum loops) in the algebraic model: pk(sum sk) = sum pk, aggregate of signatures = signature by the aggregated key (byte-equal), removal, order and nesting independence, exact identity cases (the solver chooses keys summing to zero), and the documented errors.',
              note=ALG_NOTE + ' Multisets of at most 3 (quick) / 4 (thorough) keys.'),
  'C16': dict(design='6.16', text='Bounded symbolic model checking of BLSGeneratePOP / BLSVerifyPOP and of the KMAC key strings for every application tag of the bounded lengths with symbolic contents: a PoP verifies under its key only, never under the identity key; a signature of the public-key bytes under any tag is not a PoP and vice versa (the absorbed KMAC prefixes differ for all tags).',
